@@ -3,7 +3,7 @@ C20 — model of the code that decides what reaches the logs.
 
 * `loggableHeader`  = `LoggableHTTPHeader.MarshalLogObject` (modules/caddyhttp/marshalers.go):
   every header is emitted as an array; unless `ShouldLogCredentials`, a header whose
-  `strings.ToLower(key)` is one of the four credential names is emitted as `["REDACTED"]`,
+  `strings.ToLower(strings.TrimPrefix(key, "Trailer:"))` is one of the four credential names is emitted as `["REDACTED"]`,
   whatever its casing and however many values it has.
 * `loggableRequest` = `LoggableHTTPRequest.MarshalLogObject` (flattened, `>` joins a path).
 * `siteEntries`     = which log entries the server (access / error), the reverse proxy
@@ -48,7 +48,19 @@ def foldName (k : Bytes) : Bytes := foldAux 0 k
 def credNames : List Bytes :=
   [str "cookie", str "set-cookie", str "authorization", str "proxy-authorization"]
 
-def isCred (key : Bytes) : Bool := credNames.contains (foldName key)
+/-- the key test of marshalers.go BEFORE fix 48df0ef: `switch strings.ToLower(key)` -/
+def isCredOld (key : Bytes) : Bool := credNames.contains (foldName key)
+
+/-- `http.TrailerPrefix`: reverse_proxy keeps a trailer the upstream did not announce in the response
+    header map under `Trailer:<name>` -/
+def trailerPrefix : Bytes := str "Trailer:"
+
+/-- `strings.TrimPrefix(key, http.TrailerPrefix)`: exact case, at most once -/
+def stripTrailer (key : Bytes) : Bytes :=
+  if trailerPrefix.isPrefixOf key then key.drop trailerPrefix.length else key
+
+/-- the key test as it is now: `switch strings.ToLower(strings.TrimPrefix(key, http.TrailerPrefix))` -/
+def isCred (key : Bytes) : Bool := isCredOld (stripTrailer key)
 
 def redactedVal : List Bytes := [str "REDACTED"]
 
